@@ -59,7 +59,7 @@ func init() {
 	register(&Prop{
 		ID:         "C02",
 		Title:      "Query and Scan return exactly the matching items, in sort-key order",
-		Decided:    "the structural conditions under which 'iterate the key list once and emit what matches' is exact: (R1) the comparator that orders secondary-index entries is a lexicographic strict order by (index key, primary key) with both sides of every comparison using the same projection, reversed only under the direction flag; (R2) in the search loop the only append to the result is governed exactly by the per-item verdict, which depends on both the key/filter verdict and the 'start position passed' flag; (R3) the filter verdict is conjoined with the key-condition verdict (never overwrites or disjoins it) and a Scan seeds the verdict from the Scan flag only; (R4) in the four client sites Count derives from the length of, and Items from the conversion of, the same first result of SearchData; (R5) the QueryInput built by each site carries IndexName, key condition, filter, values, names, direction (default true when absent) and Scan/true for scans; (R6) when an index is named its entry list is (re)built once before the loop with the same direction value that drives the position arithmetic; (R7) expression kinds are paired with their expression texts (= C20.R5); (R10) a search walks SortedKeys and reads Data: every mutator of the pair preserves I1 (= C01.R2) – a key spliced out of the list while its item stays stored is an item no Query or Scan returns.",
+		Decided:    "the structural conditions under which 'iterate the key list once and emit what matches' is exact: (R1) the comparator that orders secondary-index entries is a lexicographic strict order by (index key, primary key) with both sides of every comparison using the same projection, reversed only under the direction flag; (R2) in the search loop the only append to the result is governed exactly by the per-item verdict, which depends on both the key/filter verdict and the 'start position passed' flag; (R3) the filter verdict is conjoined with the key-condition verdict (never overwrites or disjoins it) and a Scan seeds the verdict from the Scan flag only; (R4) in the four client sites Count derives from the length of, and Items from the conversion of, the same first result of SearchData; (R5) the QueryInput built by each site carries IndexName, key condition, filter, values, names, direction (default true when absent) and Scan/true for scans; (R6) when an index is named its entry list is (re)built once before the loop with the same direction value that drives the position arithmetic; (R7) expression kinds are paired with their expression texts (= C20.R5); (R10) a search walks SortedKeys and reads Data: every mutator of the pair preserves I1 (= C01.R2) – a key spliced out of the list while its item stays stored is an item no Query or Scan returns; (R11) Query and Scan over an index are not read-only in the engine (startSearch rebuilds index.sortedRefs, getPrimaryKey consumes it): every access to table and index state is made with the exclusive mutex held (= C11.L1) – a shared read lock lets two searches destroy each other's cursor and lose items.",
 		NotDecided: "the truth value of the conditions (C06); the position arithmetic of GetKeyAt and of the index cursor (value-level); behaviour for an unknown index name.",
 		Rules: []RuleDef{
 			{ID: "R1", Desc: "index comparator is a lexicographic strict order on (index key, primary key) (comparator lint)", Run: c02R1},
@@ -85,6 +85,13 @@ func init() {
 				}
 			}},
 			{ID: "R10", Desc: "every mutator of the table keeps SortedKeys the sorted key set of Data (= C01.R2): what a search walks is what is stored", Run: aliasRule("R10", c01R2, nil)},
+			{ID: "R11", Desc: "a search runs under the exclusive client lock: searching an index rebuilds and consumes the shared index cursor (= C11.L1)", Run: aliasRule("R11", func(e *Engine) {
+				for _, role := range clientRoles {
+					if r := e.lockAnalysis(role); r.mu != nil {
+						e.ruleL1("L1", r, nil)
+					}
+				}
+			}, nil)},
 		},
 	})
 }
